@@ -21,7 +21,7 @@
 
 --replay <plan> re-runs the plan lines of a reported violation (same seed) and judges them again.
 """
-import os, json, re, subprocess, time
+import os, json, re, subprocess, time, concurrent.futures
 import vlib
 
 PID = "C16"
@@ -45,7 +45,7 @@ INVS = {
     "aliaspos": "APUniform APMarginal",
     "dice": "DiceInRange DiceExact",
     "trials": "TrialsRange TrialsPmfAtOne",
-    "cases": "CasesWellFormed CaseIdsDistinct EverySamplerHasACase",
+    "cases": "CasesWellFormed CaseIdsDistinct EverySamplerHasACase FreqLawSane",
 }
 
 TIERS = {
@@ -65,29 +65,34 @@ TIERS = {
 }
 
 
-def run_mc(v, name, model, variant, geo, maxtrials, env=None, expect_violation=False, timeout=2400):
+def run_mc(v, name, model, variant, geo, maxtrials, env=None, expect_violation=False, timeout=2400, workers=None, heap="3g"):
+    """run one design model; returns a closure that registers the result with the verdict (call it in the main thread)"""
     par = dict(model=model, variant=variant, inv=INVS[model], maxtrials=maxtrials,
                nmax=geo["nmax"], den=geo["den"], step=geo["step"], deltas=geo["deltas"])
     cfgp = os.path.join(vlib.SPEC, "_gen_SamplersMC_%s.cfg" % name)
     with open(cfgp, "w") as f:
         f.write(MC_CFG % par)
     try:
-        r = vlib.tlc(PID, "SamplersMC", os.path.basename(cfgp), timeout=timeout, tag="mc_" + name, env=env, extra=["-noGenerateSpecTE"])
+        r = vlib.tlc(PID, "SamplersMC", os.path.basename(cfgp), timeout=timeout, tag="mc_" + name, env=env, extra=["-noGenerateSpecTE"],
+                     workers=workers, heap=heap)
     finally:
         os.remove(cfgp)
-    if r.error:
-        raise vlib.MachineryError("SamplersMC (%s): %s" % (name, r.error))
     what = "SamplersMC.tla %s/%s NMax=%d Den=%d Step=%d Deltas=+-%s: %s" % (
         model, variant, geo["nmax"], geo["den"], geo["step"], geo["deltas"], INVS[model])
-    if expect_violation:
-        v.add_tlc(r, what + " [negative control: must be refuted] -> " + (r.violated or "NOT refuted"))
-        if not r.violated:
-            raise vlib.MachineryError("negative control %s was not refuted: the invariants have no teeth" % name)
-    else:
-        v.add_tlc(r, what)
-        if r.violated:
-            raise vlib.MachineryError("design model %s violates %s (model defect)\n%s" % (name, r.violated, r.out[-3000:]))
-    return r
+
+    def register():
+        if r.error:
+            raise vlib.MachineryError("SamplersMC (%s): %s" % (name, r.error))
+        if expect_violation:
+            v.add_tlc(r, what + " [negative control: must be refuted] -> " + (r.violated or "NOT refuted"))
+            if not r.violated:
+                raise vlib.MachineryError("negative control %s was not refuted: the invariants have no teeth" % name)
+        else:
+            v.add_tlc(r, what)
+            if r.violated:
+                raise vlib.MachineryError("design model %s violates %s (model defect)\n%s" % (name, r.violated, r.out[-3000:]))
+        return r
+    return register
 
 
 def rat(x):
@@ -199,9 +204,10 @@ def parse_prints(out):
     return res
 
 
-def judge(v, trace, tag, plan_of_line, mode, seed):
+def judge(v, trace, tag, plan_of_line, mode, seed, tv=None):
     """validate a trace; turn REJECTs into violations with a replayable plan"""
-    tv = vlib.validate_trace(PID, "SamplersTrace", trace, tag=tag, heap="8g")
+    if tv is None:
+        tv = vlib.validate_trace(PID, "SamplersTrace", trace, tag=tag, heap="8g")
     with open(trace) as f:
         tl = f.readlines()
     prints = parse_prints(tv.tlc.out)
@@ -280,53 +286,67 @@ def run(tier, replay=None):
         v.cov["rule"] = "replay of a saved plan"
         return v.finish()
 
-    # 1. design models
-    run_mc(v, "loaded", "loaded", "intended", T["loaded"], T["maxtrials"])
-    run_mc(v, "loaded_fallthrough", "loaded", "fallthrough", T["loaded"], T["maxtrials"], expect_violation=True)
-    run_mc(v, "vose", "vose", "intended", T["vose"], T["maxtrials"])
-    run_mc(v, "vose_tol", "vose", "intended", T["vose_tol"], T["maxtrials"])
-    run_mc(v, "aliaspos", "aliaspos", "intended", T["aliaspos"], T["maxtrials"])
-    run_mc(v, "aliaspos_reuse", "aliaspos", "reuse", T["aliaspos"], T["maxtrials"], expect_violation=True)
-    run_mc(v, "dice", "dice", "intended", T["loaded"], T["maxtrials"])
-    run_mc(v, "trials", "trials", "intended", T["loaded"], T["maxtrials"])
-    # 2. cases: well-formedness + export
+    # 1. design models, 2. cases: well-formedness + export  (independent TLC runs, started together)
     exp = os.path.join(out, "export.json")
     if os.path.exists(exp):
         os.remove(exp)
-    run_mc(v, "cases", "cases", "intended", T["cases"], T["maxtrials"], env={"C16EXPORT": exp})
-    if not os.path.exists(exp):
-        raise vlib.MachineryError("TLC did not export the cases")
-    doc = json.load(open(exp))
-    fit = sorted(doc["fit"], key=lambda c: c["idx"])
-    rules = sorted(doc["rules"], key=lambda r: (r["s"], r["k"], r["a"], r["b"], r["p"], r["tlo"]))
-    rc, o = vlib.run(["python3", os.path.join(vlib.ROOT, "tools", "c16_tables.py"), "--check"], timeout=300)
-    if rc != 0:
-        v.notes.append("spec/SamplersFit.tla differs from what tools/c16_tables.py generates now")
+    mt = T["maxtrials"]
+    jobs = [
+        ("loaded", "loaded", "intended", T["loaded"], dict(heap="8g")),
+        ("loaded_fallthrough", "loaded", "fallthrough", T["loaded"], dict(expect_violation=True, heap="8g")),
+        ("vose", "vose", "intended", T["vose"], {}),
+        ("vose_tol", "vose", "intended", T["vose_tol"], dict(workers=4)),
+        ("aliaspos", "aliaspos", "intended", T["aliaspos"], dict(workers=4)),
+        ("aliaspos_reuse", "aliaspos", "reuse", T["aliaspos"], dict(expect_violation=True, workers=2)),
+        ("dice", "dice", "intended", T["loaded"], dict(workers=2)),
+        ("trials", "trials", "intended", T["loaded"], dict(workers=2)),
+        ("cases", "cases", "intended", T["cases"], dict(env={"C16EXPORT": exp}, workers=2)),
+    ]
+    ex = concurrent.futures.ThreadPoolExecutor(max_workers=len(jobs))
+    futs = [ex.submit(run_mc, v, n, m, va, geo, mt, **kw) for (n, m, va, geo, kw) in jobs]
+    try:
+        futs[-1].result()()          # the cases run: registers itself, raises if the cases are not well formed
+        if not os.path.exists(exp):
+            raise vlib.MachineryError("TLC did not export the cases")
+        doc = json.load(open(exp))
+        fit = sorted(doc["fit"], key=lambda c: c["idx"])
+        rules = sorted(doc["rules"], key=lambda r: (r["s"], r["k"], r["a"], r["b"], r["p"], r["tlo"]))
+        rc, o = vlib.run(["python3", os.path.join(vlib.ROOT, "tools", "c16_tables.py"), "--check"], timeout=300)
+        if rc != 0:
+            v.notes.append("spec/SamplersFit.tla differs from what tools/c16_tables.py generates now")
 
-    # 3. the real samplers
-    fit_lines = [fit_plan_line(c, T) for c in fit]
-    weights = [(T["n_big"] // T["t_big"] if c["big"] else (T["n_cont"] if c["kind"] == "cont" else T["n_disc"])) for c in fit]
-    ft = os.path.join(out, "trace_fit.ndjson")
-    big = [i for i, c in enumerate(fit) if c["big"]]
-    small = [i for i, c in enumerate(fit) if not c["big"]]
-    # the multi-threaded cases first (they use the cores themselves), then the rest spread over the cores
-    c1 = run_harness_parallel(exe, "fit", [fit_lines[i] for i in big], ft + ".big", seed, 2)
-    c2 = run_harness_parallel(exe, "fit", [fit_lines[i] for i in small], ft + ".small", seed, vlib.NCPU, weight=[weights[i] for i in small])
-    with open(ft, "w") as f:
-        f.write(open(ft + ".big").read() + open(ft + ".small").read())
-    os.remove(ft + ".big")
-    os.remove(ft + ".small")
-    rule_lines = [rule_plan_line(i + 1, r) for i, r in enumerate(rules)]
-    rt = os.path.join(out, "trace_rules.ndjson")
-    c3 = run_harness_parallel(exe, "rules", rule_lines, rt, seed, vlib.NCPU)
-    if c1 or c2 or c3:
-        v.notes.append("some sampler calls did not return (crash lines in the trace)")
+        # 3. the real samplers (while the larger design models are still being checked)
+        fit_lines = [fit_plan_line(c, T) for c in fit]
+        weights = [(T["n_big"] // T["t_big"] if c["big"] else (T["n_cont"] if c["kind"] == "cont" else T["n_disc"])) for c in fit]
+        ft = os.path.join(out, "trace_fit.ndjson")
+        big = [i for i, c in enumerate(fit) if c["big"]]
+        small = [i for i, c in enumerate(fit) if not c["big"]]
+        # the multi-threaded cases first (they use the cores themselves), then the rest spread over the cores
+        c1 = run_harness_parallel(exe, "fit", [fit_lines[i] for i in big], ft + ".big", seed, 2)
+        c2 = run_harness_parallel(exe, "fit", [fit_lines[i] for i in small], ft + ".small", seed, vlib.NCPU, weight=[weights[i] for i in small])
+        with open(ft, "w") as f:
+            f.write(open(ft + ".big").read() + open(ft + ".small").read())
+        os.remove(ft + ".big")
+        os.remove(ft + ".small")
+        rule_lines = [rule_plan_line(i + 1, r) for i, r in enumerate(rules)]
+        rt = os.path.join(out, "trace_rules.ndjson")
+        c3 = run_harness_parallel(exe, "rules", rule_lines, rt, seed, vlib.NCPU)
+        if c1 or c2 or c3:
+            v.notes.append("some sampler calls did not return (crash lines in the trace)")
+        for f in futs[:-1]:
+            f.result()()             # the design models: register, raise if one is violated / a control is not refuted
+    finally:
+        ex.shutdown(wait=True)
 
     # 4. the oracle
     by_idx = {c["idx"]: fit_lines[i] for i, c in enumerate(fit)}
-    tv1 = judge(v, ft, "tv_fit", lambda e: by_idx.get(e.get("case"), ""), "fit", seed)
+    with concurrent.futures.ThreadPoolExecutor(max_workers=2) as ex:
+        f1 = ex.submit(vlib.validate_trace, PID, "SamplersTrace", ft, tag="tv_fit", heap="8g")
+        f2 = ex.submit(vlib.validate_trace, PID, "SamplersTrace", rt, tag="tv_rules", heap="8g")
+        pre1, pre2 = f1.result(), f2.result()
+    tv1 = judge(v, ft, "tv_fit", lambda e: by_idx.get(e.get("case"), ""), "fit", seed, tv=pre1)
     v.add_tlc(tv1.tlc, "SamplersTrace over %d fit cases (%d lines)" % (len(fit), tv1.lines))
-    tv2 = judge(v, rt, "tv_rules", lambda e: rule_lines[e["case"] - 1] if isinstance(e.get("case"), int) and 0 < e["case"] <= len(rule_lines) else "", "rules", seed)
+    tv2 = judge(v, rt, "tv_rules", lambda e: rule_lines[e["case"] - 1] if isinstance(e.get("case"), int) and 0 < e["case"] <= len(rule_lines) else "", "rules", seed, tv=pre2)
     v.add_tlc(tv2.tlc, "SamplersTrace over %d steered draws" % tv2.lines)
 
     draws = sum((T["n_big"] if c["big"] else (T["n_cont"] if c["kind"] == "cont" else T["n_disc"])) for c in fit)
